@@ -387,13 +387,17 @@ def run(pid: str, tier: str) -> int:
     events: List[Dict[str, Any]] = []
     for (kind, tid, d, v, h), evs in zip(jobs, traces):
         events.extend(evs)
-        hb = any(c < 35 for c in h)
-        for e in evs:
-            if e['ev'] != 'new':
-                chk.evaluations += 1
-                if hb:
-                    pass
-        # distinct (dealer, history-prefix, call) with a bid in the history
+        chk.evaluations += sum(1 for e in evs if e['ev'] != 'new')
+    # the repository's own tests, run under a recording plugin: every invariant
+    # is evaluated at every step they take
+    from .core import repo_test_events
+    rt = [e for e in repo_test_events(['tests']) if e.get('src') == 'auction']
+    for e in rt:
+        e.pop('src', None)
+    chk.extra['repo_test_events'] = len(rt)
+    chk.evaluations += sum(1 for e in rt if e['ev'] != 'new')
+    events.extend(rt)
+    # distinct (dealer, history-prefix, call) with a bid in the history
     seen = set()
     cur: Optional[list] = None
     for e in events:
